@@ -475,7 +475,11 @@ struct Prog
   int next_scope = 0;
   uint64_t chash        = 0;
   std::string text;
-  uint64_t nstarts = 0, max_depth = 0;
+  uint64_t nstarts = 0, max_depth = 0, max_stack = 0;
+  // deep mode (from seeded change C05-w6-1): scopes nest 15..60 deep before they unwind, across every growth (and
+  // any shrinking) of the thread's context stack; new spans started on the way down must find the right active span
+  int depth_limit = 6;
+  bool deep       = false;
   // the active span as StartSpan's caller can observe it (== model top unless the active-span assertion fired)
   Cv cur_act;
   int cur_act_depth = 0;
@@ -694,6 +698,8 @@ struct Prog
     else
       scopes[id].reset(new trace_api::Scope(s));
     stack.push_back({id, cv, depth});
+    if (stack.size() > max_stack)
+      max_stack = stack.size();
     C("scope_open");
     chash = vf::mix(chash, 0x51 + static_cast<uint64_t>(depth));
     check_active("after-attach");
@@ -762,7 +768,7 @@ struct Prog
     unsigned kind = static_cast<unsigned>(r.below(100));
     std::vector<size_t> usable;
     for (size_t i = 0; i < nodes.size(); ++i)
-      if (nodes[i].depth < 6)
+      if (nodes[i].depth < depth_limit)
         usable.push_back(i);
     Resolved &w = op.want;
     auto fall_to_active = [&](const char *why) {
@@ -1203,7 +1209,7 @@ struct Prog
       max_depth = static_cast<uint64_t>(n.depth);
 
     // often make it the active span
-    if (n.depth < 6 && r.chance(1, 2))
+    if (n.depth < depth_limit && (deep ? r.chance(9, 10) : r.chance(1, 2)))
     {
       note("activate");
       open_scope(span, got, n.depth);
@@ -1224,7 +1230,7 @@ struct Prog
         unsigned c = static_cast<unsigned>(r.below(10));
         std::vector<size_t> usable;
         for (size_t j = 0; j < nodes.size(); ++j)
-          if (nodes[j].depth < 6)
+          if (nodes[j].depth < depth_limit)
             usable.push_back(j);
         if (c < 5 && !usable.empty())
         {
@@ -1286,6 +1292,11 @@ struct Prog
                         e.ctx.str());
     }
     R.maxi("max_depth", max_depth);
+    R.maxi("max_open_scopes", max_stack);
+    if (max_stack >= 15)
+      R.count("cases_with_15_or_more_nested_scopes");
+    if (max_stack >= 31)
+      R.count("cases_with_31_or_more_nested_scopes");
     R.maxi("max_spans_per_tree", nodes.size());
     C.flush();
   }
@@ -1377,7 +1388,15 @@ void model_case(uint64_t seed, size_t max_ops)
   Shared sh;
   setup_provider(sh, r, seed);
   Prog p(sh, 0, vf::mix(seed, 77), false);
-  p.run(static_cast<size_t>(r.range(8, static_cast<int64_t>(max_ops))));
+  size_t nops = static_cast<size_t>(r.range(8, static_cast<int64_t>(max_ops)));
+  if (vf::mix(seed, 0xdee9) % 8 == 0)
+  {
+    p.deep        = true;
+    p.depth_limit = 64;
+    nops          = static_cast<size_t>(60 + vf::mix(seed, 0xdeea) % 120);
+    R.count("deep_nesting_cases");
+  }
+  p.run(nops);
   sh.tracer[0] = sh.tracer[1] = nostd::shared_ptr<trace_api::Tracer>();
   sh.provider.reset();
   final_sink_check(sh);
